@@ -27,14 +27,20 @@ type NodeCopier interface {
 // document provided will be where the new node will be attached. This can be
 // the same document, but it must not be nil.
 func DeepCopy(node Node, document *Document) Node {
+	return deepCopyForFamily(node, document, nil)
+}
+
+// deepCopyForFamily is DeepCopy for a node that is going to be attached to the
+// family provided. The family is needed when the node itself is a husband,
+// wife or child node (these cannot be created without a family). The family may
+// be nil.
+func deepCopyForFamily(node Node, document *Document, family *FamilyNode) Node {
 	if IsNil(node) {
 		return nil
 	}
 
 	// We must track the last family seen for nodes that require a family. For
 	// example, husband, wife and child nodes.
-	var family *FamilyNode
-
 	return Filter(node, document, func(node Node) (newNode Node, traverseChildren bool) {
 		if fam, ok := node.(*FamilyNode); ok {
 			family = fam
